@@ -281,7 +281,7 @@ func TestC06(t *testing.T) {
 		kit.Class("concurrent-readers-vs-reloads")
 	}
 	// random long histories
-	kit.SetRapid(kit.N(4000, 200000))
+	kit.SetRapid(kit.N(4000, 60000))
 	rapid.Check(t, kit.Prop("C06", func(t *rapid.T) {
 		k := rapid.IntRange(5, 40).Draw(t, "len")
 		ops := make([]int, k)
